@@ -9,6 +9,8 @@ CONSTANTS
   AllowBreak = FALSE
   AllowStall = FALSE
   Cap = 1
+  AllowTopo = TRUE
+  Warm = FALSE
   AllowRemove = TRUE
   FixSenderPrune = TRUE
   FixGuardedDelete = TRUE
